@@ -17,6 +17,8 @@ Rec == ndJsonDeserialize(IOEnv.TRACE)
 VARIABLES l, done
 Init == l \in 1..Len(Rec) /\ done = 0
 Once == done = 0 /\ done' = 1 /\ l' = l
+\* the driver process was killed by the scenario (abort, stack overflow) or made no progress (hang)
+Died(e) == e.k \in {"hang", "abort"}
 Report(tag, why) == PrintT("@@" \o tag \o "|" \o ToString(l) \o "|" \o why)
 
 FirstBad(sq, P(_)) == IF \E i \in 1..Len(sq) : ~P(sq[i]) THEN CHOOSE i \in 1..Len(sq) : ~P(sq[i]) /\ \A j \in 1..(i - 1) : P(sq[j]) ELSE 0
@@ -43,5 +45,5 @@ C12Why(e) ==
           ELSE IF bt # 0 THEN "set_tid(" \o ToString(e.tidset[bt][1]) \o ")"
           ELSE ""
 C12(e) == LET w == C12Why(e) IN IF w = "" THEN TRUE ELSE Report("VIOLATION-C12", w)
-NextC12 == Once /\ C12(Rec[l])
+NextC12 == Once /\ (IF Died(Rec[l]) THEN Report("VIOLATION-C12", "the library " \o Rec[l].k \o "s") ELSE C12(Rec[l]))
 ====
